@@ -12,7 +12,8 @@ from core import q
 warnings.simplefilter('ignore')
 
 REQUIRED = ['guard_sound', 'guard_complete', 'guard_rejects_nonfinite', 'path_invariant', 'cast32_overflow', 'format_guard',
-            'format_guard_rejects', 'arc_bend_zero']
+            'format_guard_rejects', 'arc_bend_zero',
+            'sin_flat', 'circ_zero_sweep', 'circ_zero_sweep_samples', 'arc_coupler_zero', 'arc_mzi_zero']
 RULE = ('stream guard: random arrays (finite, NaN, +-inf, beyond the single-precision range, zero / negative feeds, at any row) '
         'through the real LaserPath.add_path; accept / reject and the stored rows must equal the Lean guard model.  stream grid: '
         'every numeric argument of every builder (start, linear ABS/INC, circ, arc_bend, arc_coupler, arc_mzi, sin_bridge, sin_bend, '
